@@ -13,6 +13,9 @@ mod tests;
 
 use self::mode::Mode;
 
+#[cfg(falconre_falcon_verif)]
+pub use self::x86register::verif_registers;
+
 /// The X86 translator.
 #[derive(Clone, Debug, Default)]
 pub struct X86;
